@@ -108,7 +108,7 @@ class ExtrudedStack(TransformedStack):
     Amount is overall 'height' of the stack."""
 
     def __init__(self, base: Sketch, amount: Union[float, VectorType], repeats: int):
-        if isinstance(amount, float) or isinstance(amount, int):
+        if np.ndim(amount) == 0:
             extrude_vector = base.normal * amount / repeats
         else:
             extrude_vector = np.asarray(amount) / repeats
